@@ -548,6 +548,14 @@ func genC18Reuse(t *rapid.T) c18Reuse {
 			if len(b) > 8 {
 				b = b[:rapid.IntRange(4, len(b)-1).Draw(t, label+".cut")]
 			}
+		case 3:
+			// a frame whose header does not parse (version, or fewer than four octets): whatever
+			// the receiver kept from the call before must not make it acceptable
+			if rapid.Bool().Draw(t, label+".short") {
+				b = b[:rapid.IntRange(0, 3).Draw(t, label+".len")]
+			} else {
+				b[0] = b[0]&0x3F | byte(rapid.SampledFrom([]int{0, 1, 3}).Draw(t, label+".version"))<<6
+			}
 		}
 		return b
 	}
